@@ -21,7 +21,7 @@ def run_property(prop: str, tier: str, seed: int, only_rule: str | None = None) 
         return 2
     ctx = None
     try:
-        repo = Repo()
+        repo = Repo(full_normalise=True if tier == "thorough" else None)
         ctx = Ctx(prop, tier, repo, level=LEVELS.get(prop, "other"))
         mod.run(ctx)
         if tier == "thorough":
